@@ -416,6 +416,6 @@ func genGoMaps(g *G) {
 }
 
 func init() {
-	suites["C12"] = func(g *G) { genIntegers(g); genStrings(g); genDates(g) }
-	suites["C11"] = func(g *G) { genMappings(g); genGoMaps(g) }
+	suites["DATA"] = func(g *G) { genIntegers(g); genStrings(g); genDates(g) }
+	suites["MAP"] = func(g *G) { genMappings(g); genGoMaps(g) }
 }
